@@ -25,26 +25,16 @@ Theorem C26_insert : forall s x i, str_insert s x i = sp_insert s x i.
 Proof. exact insert_refines. Qed.
 Print Assumptions C26_insert.
 
-(* slice.  Full statement: slice always returns the reference substring *)
-Definition C26_slice_statement : Prop := forall s i j, str_slice s i j = Some (sp_slice s i j).
-
-(* whenever slice returns, it returns the reference substring *)
-Theorem C26_slice : forall s i j r, str_slice s i j = Some r -> r = sp_slice s i j.
-Proof. exact slice_some. Qed.
+(* slice, at full strength: for every string and every pair of integers the result is the
+   characters from position start through position end, empty when that range is empty *)
+Theorem C26_slice : forall s i j, str_slice s i j = sp_slice s i j.
+Proof. exact slice_refines. Qed.
 Print Assumptions C26_slice.
 
-(* it fails exactly on the class "computed start after computed end" (known_C26_K1), and on that
-   class the reference result is the empty string: the error is never the right answer *)
-Theorem C26_slice_error_class : forall s i j,
-  (str_slice s i j = None <-> slice_end j (Z.of_nat (length s)) < slice_start i (Z.of_nat (length s))) /\
-  (str_slice s i j = None -> sp_slice s i j = []).
-Proof. intros. split; [apply slice_none|apply slice_none_empty]. Qed.
-Print Assumptions C26_slice_error_class.
-
-(* F25: slice("abc", 3, 1) *)
-Theorem C26_refuted_slice : ~ C26_slice_statement.
-Proof. intros H. destruct refuted_slice as [A _]. rewrite H in A. discriminate. Qed.
-Print Assumptions C26_refuted_slice.
+Theorem C26_slice_empty_range : forall s i j,
+  slice_end j (Z.of_nat (length s)) <= slice_start i (Z.of_nat (length s)) -> str_slice s i j = [].
+Proof. exact slice_empty_range. Qed.
+Print Assumptions C26_slice_empty_range.
 
 (* case functions: the reference maps, and only ASCII letters change *)
 Theorem C26_case : forall s,
@@ -64,5 +54,5 @@ Theorem C26_quotes : forall v q,
 Proof. exact quotes_kept. Qed.
 Print Assumptions C26_quotes.
 
-Example C26_hyps_sat : exists r, str_slice [97; 98; 99]%N (-2) 5 = Some r.
-Proof. eexists. reflexivity. Qed.
+Example C26_slice_example : str_slice [97; 98; 99]%N (-2) 5 = [98; 99]%N /\ str_slice [97; 98; 99]%N 3 1 = [].
+Proof. split; reflexivity. Qed.
